@@ -76,6 +76,7 @@ func (c *contentValidator) ValidateOwnershipChange(ch *aclrecordproto.AclOwnersh
 	newOwnerStatus := c.aclState.accountStates[mapKeyFromPubKey(identity)]
 	if newOwnerStatus.Status != StatusActive ||
 		newOwnerPerms.IsOwner() ||
+		newOwnerPerms.IsGuest() ||
 		oldOwnerPerms.IsOwner() ||
 		oldOwnerPerms.NoPermissions() {
 		return ErrInsufficientPermissions
